@@ -87,6 +87,22 @@ CHECKS["C05"] = ("other",
     "Trusted: rustc front end/MIR, the extractor, the call graph (engine/cg.py), the reviewed tables under tables/.",
     "site enumeration + type-graph walk over the resolved program (no execution)", "DESIGN.md §5 C05")
 
+CHECKS["C09"] = ("other",
+    "The report builder decided as a table over record kind x status by a monitor over its MIR: a FAIL rule is listed exactly "
+    "once and unconditionally, FAIL containers are descended into, nothing is listed or descended for a non-FAIL record, every "
+    "record variant the evaluator constructs is known to the table, failure-only clause variants are built with FAIL; "
+    "simplified_json_from_root puts PASS into compliant, SKIP into not_applicable, FAIL into neither and copies the file status; "
+    "combine folds with Status::and over an accumulator that starts at the identity SKIP; custom_message of every listed entry "
+    "depends on the matched record (call-site dependency closure). Not claimed: the content of `checks` for arbitrary programs.",
+    TB % "c09", "decision tables + dependency closure via abstract interpretation of MIR (no execution)", "DESIGN.md §5 C09")
+CHECKS["C11"] = ("other",
+    "NOT the equality of the two loaders on all scalar spellings (serde_yaml is a dependency; spellings are run-time data). "
+    "Decided: the CloudFormation short-form tables (every accepted tag has a long form, k -> Fn::k except Ref/Condition, all 21 "
+    "documented tags present, both loaders use the same tables), the libyaml scalar cascade (quoted => String without parsing; "
+    "plain => i64, f64, bool, null spellings in that order; explicit core tag table), rejection of aliases and non-string keys, and "
+    "the serde_yaml/serde_json -> Value conversion tables with exactly one insert per map entry / list element.",
+    TB % "c11", "literal-table extraction + decision tables via abstract interpretation of MIR (no execution)", "DESIGN.md §5 C11")
+
 NOT_APPLICABLE = {
 }
 
